@@ -30,7 +30,7 @@ BIT11 = 2048
 def translate():
     from translator import registry
 
-    return registry.generate("Blocks", "Constants")
+    return registry.generate("Blocks", "Constants", "KernelsFilter")
 
 
 _CACHE = {}
@@ -627,9 +627,91 @@ def translator_cross_check(report, status):
             status.problem("translator", f"{what}: translator read {a}, live object/source has {b}")
 
 
+def _exact(a):
+    """numpy float array -> nested lists of Fractions / nan (what translator/pyarr.py's evaluator works on)"""
+    from translator import pyarr
+
+    return [[pyarr.NAN if np.isnan(v) else (float(v) if np.isinf(v) else Fraction(float(v))) for v in row] for row in np.asarray(a, dtype=float)]
+
+
+def _same_cells(a, b):
+    from translator import pyarr
+
+    for ra, rb in zip(a, b):
+        for x, y in zip(ra, rb):
+            if pyarr.is_nan(x) != pyarr.is_nan(y) or (not pyarr.is_nan(x) and x != y):
+                return False
+    return len(a) == len(b)
+
+
+KERNEL_SHAPES = [(103, 3), (3, 104), (105, 5), (4, 4), (5, 7), (6, 6), (3, 3), (8, 5)]
+
+
+def kernel_cross_check(ctx, report, status):
+    """T15: the real `MedianFilter.median_filter` / `filter_disparity` against the translator's exact reading of their
+    source (`pyarr.evaluate` on the statement list `Generated/KernelsFilter.lean` is printed from; Lean's own reading
+    of that text is checked at build time by the generated `example`s).  Compared: the returned array, and the content
+    of the INPUT array after the call (aliasing)."""
+    from translator import gen_blocks, gen_constants, gen_kernels_filter, pyarr
+    from pandora import filter as flt
+
+    try:
+        fns = gen_kernels_filter.functions()
+        t8 = gen_blocks.extract()
+        consts = {k: v for k, v in gen_constants.extract().items() if isinstance(v, int)}
+    except Exception:  # already reported by build_and_audit (translate())  # pylint: disable=broad-except
+        return
+    import random
+    import warnings
+
+    from translator import pyarr_selftest
+
+    for what in pyarr_selftest.refused_problems():  # constructs outside the subset must be refused, never guessed
+        status.problem("translator", f"pyarr self-test: {what}")
+    for what in pyarr_selftest.python_problems(ctx.seed):  # accepted programs: CPython vs the evaluator, aliasing included
+        status.problem("translator", f"pyarr self-test: {what}")
+    report.translator_checks += len(pyarr_selftest.REFUSED) + len(pyarr_selftest.ACCEPTED)
+    rng = random.Random(4242 + ctx.seed)
+    shapes = KERNEL_SHAPES + [None] * ctx.n(24, 200)
+    for shape in shapes:
+        ny, nx, disp, flags, _, _ = gen_map(rng, shape)
+        fs = rng.choice([f for f in ((3, 5) if max(ny, nx) > 100 else (1, 3, 3, 5, 7)) if f <= min(ny, nx)])
+        dtype = rng.choice([np.float32, np.float64])
+        f = flt.AbstractFilter(cfg={"filter_method": "median", "filter_size": fs}, image_shape=(ny, nx), step=1)
+        # --- median_filter(data): result and input afterwards
+        data = np.array(disp, dtype=dtype)
+        data[rng.randrange(ny), rng.randrange(nx)] = np.nan
+        st = pyarr.PStore([_exact(data)])
+        k = pyarr.evaluate(fns["medianFilter"], st, ny, nx, {"data": 0}, nats={"filter_size": fs}, t8=t8)
+        with warnings.catch_warnings():
+            warnings.simplefilter("ignore")
+            real = f.median_filter(data)
+        report.translator_checks += 1
+        if not _same_cells(_exact(real), st.arr[k]) or not _same_cells(_exact(data), st.arr[0]):
+            status.problem("translator", f"translated median_filter evaluates differently from the real function on a {ny}x{nx} map, "
+                           f"filter_size {fs} (result equal: {_same_cells(_exact(real), st.arr[k])}, input afterwards equal: "
+                           f"{_same_cells(_exact(data), st.arr[0])})")
+            return
+        # --- filter_disparity(disp): the map afterwards
+        ds = fl.make_disp(np.array(disp, dtype=dtype), flags, dtype=np.dtype(dtype).name)
+        st = pyarr.PStore([_exact(ds["disparity_map"].data)])
+        pyarr.evaluate(fns["filterDisparityMedian"], st, ny, nx, {"disparity_map": 0}, ints={"validity_mask": flags.tolist()},
+                       nats={"filter_size": fs}, consts=consts, t8=t8)
+        with warnings.catch_warnings():
+            warnings.simplefilter("ignore")
+            f.filter_disparity(ds)
+        report.translator_checks += 1
+        if not _same_cells(_exact(ds["disparity_map"].data), st.arr[0]):
+            status.problem("translator", f"translated MedianFilter.filter_disparity evaluates differently from the real function on a "
+                           f"{ny}x{nx} map, filter_size {fs}")
+            return
+    report.count("kernel_cross_check_maps", len(shapes))
+
+
 def run(ctx, report, status):
     rng = ctx.rng
     translator_cross_check(report, status)
+    kernel_cross_check(ctx, report, status)
     report.rule = (
         "random disparity maps (small integers / quarters / flat / ramp) with invalid pixels (0-45 %, blobs on borders, whole "
         "columns, invalid disparity = sentinel, NaN or an ordinary value), random information bits; median: filter_size "
